@@ -10,7 +10,7 @@ INFO = {
             "canonical encoding of the term's value domain with every single-bit flip, every single-byte insertion from S6 at every "
             "position, every deletion and every truncation (two mutations in thorough for encodings <= 6 bytes); the gallery "
             "formats on their sample files with truncations and byte replacements. Oracle: if parse accepts x then y=build(parse(x)) "
-            "succeeds, parse(y) equals parse(x), build(parse(y)) == y. non-trivial = accepted inputs (the oracle ran to the final "
+            "succeeds, parse(y) equals parse(x), build(parse(y)) == y; T1 terms inside streaming bit/byte transforms; require=False terminated regions where representable. non-trivial = accepted inputs (the oracle ran to the final "
             "comparison); distinct = distinct (term, kw, input)",
     "bounds": {"quick": {"L_T1": 4, "L_T2": 4, "L_T3": 3, "mutations": 1}, "thorough": {"L_T1": 6, "L_T2": 5, "L_T3": 4, "L_T5": 3, "mutations": 2}},
     "trusted_base": ["typing rules of mc/gen.py (strict mode) decide which compositions are in the property's domain"],
@@ -24,6 +24,7 @@ def terms_for(tier):
     out = [(t, "T1", b["L_T1"]) for t in G.tier1()] + [(t, "T2", b["L_T2"]) for t in G.tier2()] + [(t, "T3", b["L_T3"]) for t in G.tier3()] \
         + [(t, "T4", b["L_T2"]) for t in G.tier4()] + [(t, "TS", b["L_T2"]) for t in G.select_records()]
     out += [(t, "TSt", b["L_T3"]) for t in G.streaming_terms(1 if tier == "quick" else 2)]
+    out += [(t, "TL", b["L_T2"] + 1) for t in G.lenient_terminated()]
     if tier == "thorough":
         out += [(t, "T5", b["L_T5"]) for t in G.tier5()]
     return out
